@@ -197,7 +197,7 @@ func runParser(which string, q string, m seq.Mapping) (o outcome, root *parser.A
 // ---------------------------------------------------------------- watchdog for hangs
 
 var curCase atomic.Value // string
-var caseSeq atomic.Int64    // incremented at the start of every in-process parse
+var caseSeq atomic.Int64 // incremented at the start of every in-process parse
 var caseActive atomic.Bool
 
 func beginCase(s string) {
